@@ -73,9 +73,9 @@ package grpcgcp
 //@ inv gcpBalancer.mu Sig [C05] := forall r *subConnRef :: {isa(r)} isa(r) ==> r.stateSignal != nil && !closed(r.stateSignal) && r.stateSignal <= $alloc
 //@ inv gcpBalancer.mu SigInj [C05] := forall r1 *subConnRef, r2 *subConnRef :: {isa(r1), isa(r2)} isa(r1) && isa(r2) && r1 != r2 ==> r1.stateSignal != r2.stateSignal
 //@ inv gcpBalancer.mu I14 [C05 C03] := (forall sc in this.scRefs :: $created[sc]) && (forall sc in this.refreshingScRefs :: $created[sc]) && (forall r *subConnRef :: {isa(r)} isa(r) ==> $created[r.subConn])
-//@ inv gcpBalancer.mu I8c [C01 C07 C03] := forall r *subConnRef :: {isa(r)} isa(r) ==> !(r.subConn in this.refreshingScRefs)
+//@ inv gcpBalancer.mu I8c [C01 C07 C03 C04] := forall r *subConnRef :: {isa(r)} isa(r) ==> !(r.subConn in this.refreshingScRefs)
 //@ inv gcpBalancer.mu I1g [C01 C07] := forall r *subConnRef :: {isa(r)} isa(r) && r.subConn in this.scRefs ==> this.scRefs[r.subConn] == r
-//@ inv gcpBalancer.mu I8 [C05 C07 C03] := forall sc balancer.SubConn :: {sc in this.refreshingScRefs} sc in this.refreshingScRefs ==> sc != nil && this.refreshingScRefs[sc] != nil && isa(this.refreshingScRefs[sc]) && !(sc in this.scRefs) && this.refreshingScRefs[sc].subConn != sc
+//@ inv gcpBalancer.mu I8 [C05 C07 C03 C04] := forall sc balancer.SubConn :: {sc in this.refreshingScRefs} sc in this.refreshingScRefs ==> sc != nil && this.refreshingScRefs[sc] != nil && isa(this.refreshingScRefs[sc]) && !(sc in this.scRefs) && this.refreshingScRefs[sc].subConn != sc
 //@ inv gcpBalancer.mu I17 [C03] := forall sc balancer.SubConn :: {sc in this.refreshingScRefs} sc in this.refreshingScRefs ==> this.refreshingScRefs[sc].subConn in this.scRefs
 //@ inv gcpBalancer.mu I18 [C03] := forall r *subConnRef :: {isa(r)} isa(r) ==> r.subConn in this.scRefs
 // C03: a non-empty pool has a validated size range and, for minSize <= maxSize, never more than maxSize channels
@@ -198,9 +198,13 @@ package grpcgcp
 //@   interruptible_by ctx
 //@   requires len(gb.scRefList) > 0
 // the slot is handed out only once it was seen READY under the lock, unless the wait ended because the call's context did
+// the wait really waits: the state signal it selects on was read under the lock in this iteration, hence is still open
+// (a closed channel would turn the loop into a busy spin on gb.mu)
+//@   callsite select#1 asserts [C06.no-spin] sigChan != nil && !closed(sigChan)
 //@   ensures [C09.ready-or-ctx] gb.scStates[result.subConn] == connectivity.Ready || selected() == ctx_done(ctx)
 //@   ensures result != nil
 //@   loop 1 blocking
+//@   loop 1 invariant lockinv(gb.mu, "Sig") && isa(scRef)
 //@ func (gb *gcpBalancer) addSubConn
 //@   inline
 //@ spec minSizeOf(gb *gcpBalancer) := gb.cfg.GetChannelPool().GetMinSize()
@@ -365,6 +369,7 @@ package grpcgcp
 //@ spec clientSideDE(ctx context.Context, rpcErr error) := rpcErr != nil && status_code(rpcErr) == 4 && err_msg(rpcErr) == err_msg(deErr) && ctx_has_deadline(ctx) && ctx_deadline_ns(ctx) <= $clock
 //@   ensures [C07.response-other] p.gb.unresponsiveDetection && !(rpcErr != nil && status_code(rpcErr) == 4 && err_msg(rpcErr) == err_msg(deErr) && ctx_has_deadline(ctx)) ==> scRef.deCalls == 0 && scRef.refreshCnt == 0 && ns(scRef.lastResp) == $clock
 //@   callsite deCallsInc#1 asserts [C07.count-only-client-de] clientSideDE(ctx, rpcErr)
+//@   callsite deCallsInc#1 asserts [C07.count-only-after-last-response] !(ns(callStarted) < ns(lastResp))
 //@   callsite refresh#1 asserts [C07.rule-client-de] clientSideDE(ctx, rpcErr)
 //@   callsite refresh#1 asserts [C07.rule] p.gb.unresponsiveDetection && rpcErr != nil && scRef.deCalls >= detCalls(p) && !(ns(callStarted) < ns(lastResp)) && ns(lastResp) + satWindow(detMs(p), scRef.refreshCnt) < $clock
 //@ func (p *gcpPicker) unresponsiveWindow
